@@ -59,3 +59,30 @@ def run(mode, detector, pipeline, **kw):
     import pyxel
 
     return pyxel.run_mode(mode=mode, detector=detector, pipeline=pipeline, **kw)
+
+
+def make_calibration(target_files, parameters, *, pipeline_seed=None, pygmo_seed=1, num_islands=1, num_evolutions=1,
+                     population_size=8, generations=2, algo="sade", result_type="image", fitness="pyxel.calibration.fitness.sum_of_abs_residuals",
+                     result_fit_range=None, target_fit_range=None, times=None, **kw):
+    """parameters: list of dicts(key, values, boundaries, logarithmic)"""
+    from pyxel.calibration import Algorithm, Calibration
+    from pyxel.exposure import Readout
+    from pyxel.observation import ParameterValues
+    from pyxel.pipelines import FitnessFunction
+
+    params = [ParameterValues(key=p["key"], values=p["values"], boundaries=p.get("boundaries"), logarithmic=p.get("logarithmic", False)) for p in parameters]
+    return Calibration(
+        target_data_path=list(target_files),
+        fitness_function=FitnessFunction(func=fitness),
+        algorithm=Algorithm(type=algo, generations=generations, population_size=population_size),
+        parameters=params,
+        readout=Readout(times=times) if times is not None else None,
+        result_type=result_type,
+        result_fit_range=result_fit_range,
+        target_fit_range=target_fit_range,
+        pygmo_seed=pygmo_seed,
+        pipeline_seed=pipeline_seed,
+        num_islands=num_islands,
+        num_evolutions=num_evolutions,
+        **kw,
+    )
